@@ -87,7 +87,8 @@ def _records_from_loader(ctx, w, TH):
     from .C14 import PROBE
     from ptstat.symval import TextFile
     I = w.I
-    names = folder(ctx).const("activation", "COLUMN_NAMES")
+    from .common import table_data
+    names = table_data(ctx, "activation", "COLUMN_NAMES")
     col = {nm: i for i, nm in enumerate(names)}
     rows = []
     for k, th in enumerate(TH, 1):
